@@ -1,58 +1,65 @@
-/* C20: secp256k1_tagged_sha256 computes its result from its arguments only.  DFCC starts the proof with
- * ARBITRARY values in every static-lifetime object (function-local statics included), so the
- * postcondition below - stated on the hash STREAM (contracts/hash_log.h: the SHA-256 object is
- * abstracted to the byte stream written into it; contracts proved against the real write/finalize in
- * the C05 hash units) - holds for every history of calls that may have preceded this one:
- *   exactly two hash computations are finalized (the tag hash, then the message hash);
- *   computation 0 starts from the SHA-256 initial state at position 0 and absorbs exactly the tag bytes;
- *   computation 1 starts from the SHA-256 initial state at position 0, has length 64 + msglen, absorbs the
- *   message bytes at positions 64.., and its digest is what is written to hash32.
- * (That positions 0..63 of computation 1 are SHA256(tag)||SHA256(tag) is the tagged-hash wiring lemma of
- * the C02/C05 hash units; here the point is that no part of the stream comes from earlier calls.) */
-#include "hash_log.h"
+/* C20: secp256k1_tagged_sha256 computes its result from its arguments only (audit 2 #18 form).
+ * The statement is behavioural: the SAME (tag, msg) hashed twice, with an arbitrary other tagged-hash call
+ * in between, gives the SAME 32 bytes - where DFCC starts the proof with arbitrary values in every
+ * static-lifetime object (function-local statics included), so the first call runs under an arbitrary
+ * "history" and the third under whatever the first two left behind.  No call count, no midstate and no
+ * internal structure is pinned: an implementation with a const table of tag midstates passes.
+ * The compression function is an UNINTERPRETED function of (state, block) installed in the hash context -
+ * determinism is all the comparison needs; the real write/finalize/initialize_tagged code runs.
+ * Bounded: tag <= TAGMAX and message <= MSGMAX bytes (symbolic below that). */
+#include "pre.h"
 #include "src/secp256k1.c"
 #include "post.h"
-#define TMAX 10000
+#define TAGMAX 20
+#define MSGMAX 40
+uint32_t __CPROVER_uninterpreted_sha256_c0(uint32_t, uint32_t, uint32_t, uint32_t, uint32_t, uint32_t, uint32_t, uint32_t, uint32_t, uint32_t, uint32_t, uint32_t, uint32_t, uint32_t, uint32_t, uint32_t, uint32_t, uint32_t, uint32_t, uint32_t, uint32_t, uint32_t, uint32_t, uint32_t);
+uint32_t __CPROVER_uninterpreted_sha256_c1(uint32_t, uint32_t, uint32_t, uint32_t, uint32_t, uint32_t, uint32_t, uint32_t, uint32_t, uint32_t, uint32_t, uint32_t, uint32_t, uint32_t, uint32_t, uint32_t, uint32_t, uint32_t, uint32_t, uint32_t, uint32_t, uint32_t, uint32_t, uint32_t);
+uint32_t __CPROVER_uninterpreted_sha256_c2(uint32_t, uint32_t, uint32_t, uint32_t, uint32_t, uint32_t, uint32_t, uint32_t, uint32_t, uint32_t, uint32_t, uint32_t, uint32_t, uint32_t, uint32_t, uint32_t, uint32_t, uint32_t, uint32_t, uint32_t, uint32_t, uint32_t, uint32_t, uint32_t);
+uint32_t __CPROVER_uninterpreted_sha256_c3(uint32_t, uint32_t, uint32_t, uint32_t, uint32_t, uint32_t, uint32_t, uint32_t, uint32_t, uint32_t, uint32_t, uint32_t, uint32_t, uint32_t, uint32_t, uint32_t, uint32_t, uint32_t, uint32_t, uint32_t, uint32_t, uint32_t, uint32_t, uint32_t);
+uint32_t __CPROVER_uninterpreted_sha256_c4(uint32_t, uint32_t, uint32_t, uint32_t, uint32_t, uint32_t, uint32_t, uint32_t, uint32_t, uint32_t, uint32_t, uint32_t, uint32_t, uint32_t, uint32_t, uint32_t, uint32_t, uint32_t, uint32_t, uint32_t, uint32_t, uint32_t, uint32_t, uint32_t);
+uint32_t __CPROVER_uninterpreted_sha256_c5(uint32_t, uint32_t, uint32_t, uint32_t, uint32_t, uint32_t, uint32_t, uint32_t, uint32_t, uint32_t, uint32_t, uint32_t, uint32_t, uint32_t, uint32_t, uint32_t, uint32_t, uint32_t, uint32_t, uint32_t, uint32_t, uint32_t, uint32_t, uint32_t);
+uint32_t __CPROVER_uninterpreted_sha256_c6(uint32_t, uint32_t, uint32_t, uint32_t, uint32_t, uint32_t, uint32_t, uint32_t, uint32_t, uint32_t, uint32_t, uint32_t, uint32_t, uint32_t, uint32_t, uint32_t, uint32_t, uint32_t, uint32_t, uint32_t, uint32_t, uint32_t, uint32_t, uint32_t);
+uint32_t __CPROVER_uninterpreted_sha256_c7(uint32_t, uint32_t, uint32_t, uint32_t, uint32_t, uint32_t, uint32_t, uint32_t, uint32_t, uint32_t, uint32_t, uint32_t, uint32_t, uint32_t, uint32_t, uint32_t, uint32_t, uint32_t, uint32_t, uint32_t, uint32_t, uint32_t, uint32_t, uint32_t);
+static void uf_compress(uint32_t *s, const unsigned char *blocks, size_t n_blocks) {
+    size_t b; int i;
+    for (b = 0; b < n_blocks; b++) {
+        uint32_t w[16], t[8];
+        for (i = 0; i < 16; i++) w[i] = secp256k1_read_be32(blocks + 64 * b + 4 * i);
+        t[0] = __CPROVER_uninterpreted_sha256_c0(s[0], s[1], s[2], s[3], s[4], s[5], s[6], s[7], w[0], w[1], w[2], w[3], w[4], w[5], w[6], w[7], w[8], w[9], w[10], w[11], w[12], w[13], w[14], w[15]);
+        t[1] = __CPROVER_uninterpreted_sha256_c1(s[0], s[1], s[2], s[3], s[4], s[5], s[6], s[7], w[0], w[1], w[2], w[3], w[4], w[5], w[6], w[7], w[8], w[9], w[10], w[11], w[12], w[13], w[14], w[15]);
+        t[2] = __CPROVER_uninterpreted_sha256_c2(s[0], s[1], s[2], s[3], s[4], s[5], s[6], s[7], w[0], w[1], w[2], w[3], w[4], w[5], w[6], w[7], w[8], w[9], w[10], w[11], w[12], w[13], w[14], w[15]);
+        t[3] = __CPROVER_uninterpreted_sha256_c3(s[0], s[1], s[2], s[3], s[4], s[5], s[6], s[7], w[0], w[1], w[2], w[3], w[4], w[5], w[6], w[7], w[8], w[9], w[10], w[11], w[12], w[13], w[14], w[15]);
+        t[4] = __CPROVER_uninterpreted_sha256_c4(s[0], s[1], s[2], s[3], s[4], s[5], s[6], s[7], w[0], w[1], w[2], w[3], w[4], w[5], w[6], w[7], w[8], w[9], w[10], w[11], w[12], w[13], w[14], w[15]);
+        t[5] = __CPROVER_uninterpreted_sha256_c5(s[0], s[1], s[2], s[3], s[4], s[5], s[6], s[7], w[0], w[1], w[2], w[3], w[4], w[5], w[6], w[7], w[8], w[9], w[10], w[11], w[12], w[13], w[14], w[15]);
+        t[6] = __CPROVER_uninterpreted_sha256_c6(s[0], s[1], s[2], s[3], s[4], s[5], s[6], s[7], w[0], w[1], w[2], w[3], w[4], w[5], w[6], w[7], w[8], w[9], w[10], w[11], w[12], w[13], w[14], w[15]);
+        t[7] = __CPROVER_uninterpreted_sha256_c7(s[0], s[1], s[2], s[3], s[4], s[5], s[6], s[7], w[0], w[1], w[2], w[3], w[4], w[5], w[6], w[7], w[8], w[9], w[10], w[11], w[12], w[13], w[14], w[15]);
+        for (i = 0; i < 8; i++) s[i] = t[i];
+    }
+}
 
 void h_tagged_sha256(void) {
     secp256k1_context ctx;
-    INPUT(size_t, taglen); INPUT(size_t, msglen); INPUT(int, we); INPUT(uint64_t, wpos); INPUT(size_t, k);
+    INPUT(size_t, taglen); INPUT(size_t, msglen); INPUT(size_t, taglen2); INPUT(size_t, msglen2); INPUT(size_t, k);
     INPUT(_Bool, has_out); INPUT(_Bool, has_tag); INPUT(_Bool, has_msg);
-    INPUT_ARR(unsigned char, th_out, 32);
-    unsigned char out0[32], *tag, *msg; int ret;
+    INPUT_ARR(unsigned char, th_tag, TAGMAX); INPUT_ARR(unsigned char, th_msg, MSGMAX);
+    INPUT_ARR(unsigned char, th_tag2, TAGMAX); INPUT_ARR(unsigned char, th_msg2, MSGMAX);
+    unsigned char x[32], y[32], z[32]; int r1, r2, r3;
     verif_ctx_init(&ctx);
-    ctx.hash_ctx.fn_sha256_compression = secp256k1_sha256_transform;
-    __CPROVER_assume(taglen <= TMAX && msglen <= TMAX && k < 32);
-    __CPROVER_assume(we == 0 || we == 1);
-    INPUT_BUF(th_tag, tag, taglen, 64);
-    INPUT_BUF(th_msg, msg, msglen, 64);
-    memcpy(out0, th_out, 32);
-    HASHLOG_RESET(); g_we = we; g_wpos = wpos;
+    ctx.hash_ctx.fn_sha256_compression = uf_compress;
+    __CPROVER_assume(taglen <= TAGMAX && msglen <= MSGMAX && taglen2 <= TAGMAX && msglen2 <= MSGMAX && k < 32);
 
-    ret = secp256k1_tagged_sha256(&ctx, has_out ? th_out : NULL, has_tag ? tag : NULL, taglen, has_msg ? msg : NULL, msglen);
-    WITNESS_BUF(th_tag, tag, taglen, 64);
-    WITNESS_BUF(th_msg, msg, msglen, 64);
-
+    r1 = secp256k1_tagged_sha256(&ctx, has_out ? x : NULL, has_tag ? th_tag : NULL, taglen, has_msg ? th_msg : NULL, msglen);
     __CPROVER_assert(g_error == 0, "C20 tagged_sha256: error callback never invoked");
     if (!has_out || !has_tag || !has_msg) {
         __CPROVER_assert(g_illegal >= 1, "C20 tagged_sha256: NULL argument reports illegal use");
-        (void)out0;
+        REACH("tagged_sha256 NULL argument");
     } else {
-        __CPROVER_assert(ret == 1 && g_illegal == 0, "C20 tagged_sha256: succeeds without callback");
-        __CPROVER_assert(g_fin_n == 2, "C20 tagged_sha256: exactly two hash computations are finalized, whatever the prior static state");
-        __CPROVER_assert(g_w_started && g_w_fin && g_w_s0 == 0x6a09e667ul && g_w_s7 == 0x5be0cd19ul && g_w_b0 == 0,
-                         "C20 tagged_sha256: each of the two computations starts from the SHA-256 initial state at position 0 (no cached midstate)");
-        if (we == 0) {
-            __CPROVER_assert(g_w_end == taglen, "C20 tagged_sha256: computation 0 has the length of the tag");
-            if (wpos < taglen) __CPROVER_assert(g_w_hit && g_w_byte == tag[wpos], "C20 tagged_sha256: computation 0 absorbs exactly the tag bytes of THIS call");
-        } else {
-            __CPROVER_assert(g_w_end == 64 + msglen, "C20 tagged_sha256: computation 1 has length 64 + msglen");
-            if (wpos >= 64 && wpos < 64 + msglen) __CPROVER_assert(g_w_hit && g_w_byte == msg[wpos - 64], "C20 tagged_sha256: computation 1 absorbs the message bytes after the 64-byte tag prefix");
-            if (wpos < 64) __CPROVER_assert(g_w_hit, "C20 tagged_sha256: the 64-byte tag prefix is written in this call");
-            __CPROVER_assert(th_out[k] == g_w_dig[k], "C20 tagged_sha256: hash32 is the digest of computation 1");
-        }
-        if (we == 1 && msglen == 1000 && taglen == 7) REACH("tagged_sha256 success, watching the message hash");
-        if (we == 0 && taglen == 0) REACH("tagged_sha256 with an empty tag");
+        __CPROVER_assert(r1 == 1 && g_illegal == 0, "C20 tagged_sha256: succeeds without callback");
+        r2 = secp256k1_tagged_sha256(&ctx, z, th_tag2, taglen2, th_msg2, msglen2);      /* any other call in between */
+        r3 = secp256k1_tagged_sha256(&ctx, y, th_tag, taglen, th_msg, msglen);          /* the same arguments again */
+        __CPROVER_assert(r2 == 1 && r3 == 1 && g_illegal == 0 && g_error == 0, "C20 tagged_sha256: repeated calls succeed without callback");
+        __CPROVER_assert(x[k] == y[k], "C20 tagged_sha256: the same tag and message give the same 32 bytes for every initial static state and whatever call came in between");
+        if (taglen == taglen2 && taglen == 13 && msglen == 33 && th_tag[0] != th_tag2[0]) REACH("tagged_sha256: same-length different tag in between");
+        if (taglen == 0 && msglen == 0) REACH("tagged_sha256: empty tag and message");
     }
-    if (!has_tag) REACH("tagged_sha256 NULL tag");
 }
